@@ -70,7 +70,9 @@ def variants(rng, data):
             ('gzip', {'level': rng.choice([1, 6, 9]), 'cuts': [],
                       'mtime': mt}),
             ('multi', {'level': rng.choice([1, 6, 9]), 'cuts': cuts,
-                       'mtime': rng.choice([946684800, None])})]
+                       'mtime': rng.choice([946684800, None]),
+                       'empty_last': rng.random() < 0.4,
+                       'empty_first': rng.random() < 0.2})]
 
 
 def big_case(rng):
@@ -168,6 +170,35 @@ def run(chk):
                          'constraints': cons, 'defs': defs, 'run': run_,
                          'plain': a, 'compressed': b})
                 chk.dist('parallel_pair')
+            # the same PATH holds plain text first and a gzip file later (a
+            # log compressed in place), in one process: what the path held
+            # before must not decide how it is read now
+            if idx % 4 == 2 and data:
+                kouts = {}
+                for vname, gz in (('plain', None), ('gzip', {'level': 6})):
+                    d4 = os.path.join(base, f"k_{vname}")
+                    skrun.materialise(d4, {'x.log': (data, None)})
+                    r4 = dict(run_, adds=[[a[0], 'x.log', a[2]]
+                                          for a in run_['adds']])
+                    rec = {'dir': d4, 'constraints': cons, 'defs': defs,
+                           'runs': [r4, dict(r4, new_searcher=True,
+                                             replace={'x.log': data.decode(
+                                                 'latin-1'), '_gz': gz})]}
+                    kouts[vname] = skrun.run_here(rec)
+                    chk.coverage['evaluations'] += 1
+                pa = [(o['exc'], o['results'], o['stats'])
+                      for o in kouts['plain']]
+                gb = [(o['exc'], o['results'], o['stats'])
+                      for o in kouts['gzip']]
+                if pa != gb:
+                    chk.violation(
+                        "gzip-differs-from-plain after the path changed "
+                        "from plain to gzip",
+                        {'content': data[:1500].decode('latin-1'),
+                         'constraints': cons, 'defs': defs, 'run': run_,
+                         'plain': kouts['plain'][-1],
+                         'compressed': kouts['gzip'][-1]})
+                chk.dist('plain_then_gzip_history')
             # the path's content is REPLACED by a shorter one and the same
             # searcher (and constraint object) runs again: plain and gzip
             # must still agree with each other
